@@ -1066,8 +1066,12 @@ def cmp_full(ctx, model, ln, klass, sup_klass=None):
 
 
 def get_full(conn, name):
-    return conn.GetClass(name, LocalOnly=False, IncludeQualifiers=True,
-                         IncludeClassOrigin=True)
+    # a private deep copy: a server that hands out its stored object would
+    # otherwise make every later comparison with this answer a comparison of
+    # the stored object with itself
+    return copy.deepcopy(conn.GetClass(name, LocalOnly=False,
+                                       IncludeQualifiers=True,
+                                       IncludeClassOrigin=True))
 
 
 # ---------------------------------------------------------------------------
